@@ -553,3 +553,49 @@ func GCMSIVKeystreamBlock(encKey, tag []byte, i uint32) []byte {
 	binary.LittleEndian.PutUint32(ctr[:4], binary.LittleEndian.Uint32(ctr[:4])+i)
 	return aesEnc(encKey, ctr)
 }
+
+// Part is one piece of a long message: the bytes B, or - when Zeros > 0 - a run of Zeros zero
+// bytes that is never materialised.
+type Part struct {
+	B     []byte
+	Zeros uint64
+}
+
+// HMACOfParts is HMAC per RFC 2104 (as HMAC above) over the concatenation of parts, streamed, so that
+// inputs of 2^29 bytes and more cost no memory on the reference side.
+func HMACOfParts(newHash func() hash.Hash, key []byte, parts ...Part) []byte {
+	h := newHash()
+	bs := h.BlockSize()
+	k := make([]byte, bs)
+	if len(key) > bs {
+		h.Write(key)
+		copy(k, h.Sum(nil))
+		h.Reset()
+	} else {
+		copy(k, key)
+	}
+	ipad := make([]byte, bs)
+	opad := make([]byte, bs)
+	for i := 0; i < bs; i++ {
+		ipad[i] = k[i] ^ 0x36
+		opad[i] = k[i] ^ 0x5c
+	}
+	h.Write(ipad)
+	zeros := make([]byte, 1<<16)
+	for _, p := range parts {
+		h.Write(p.B)
+		for left := p.Zeros; left > 0; {
+			n := uint64(len(zeros))
+			if left < n {
+				n = left
+			}
+			h.Write(zeros[:n])
+			left -= n
+		}
+	}
+	inner := h.Sum(nil)
+	h.Reset()
+	h.Write(opad)
+	h.Write(inner)
+	return h.Sum(nil)
+}
